@@ -5,6 +5,7 @@ use std::collections::BTreeMap;
 
 pub mod c04;
 pub mod c05;
+pub mod c06;
 
 #[derive(Clone, Copy, Debug, PartialEq, Eq)]
 pub enum Mode {
@@ -37,7 +38,7 @@ pub struct PropDef {
 }
 
 pub fn all() -> Vec<PropDef> {
-    vec![c04::def(), c05::def()]
+    vec![c04::def(), c05::def(), c06::def()]
 }
 
 pub fn get(id: &str) -> Option<PropDef> {
